@@ -14,8 +14,10 @@ import numpy as np
 
 EDGES = [0.1, 0.2, 0.3, 0.4]
 PROGRAMS = ("create-centres", "create-ids", "create-hdf", "create-parquet", "create-random", "create-num", "load", "trees",
-            "hist", "auto", "cross", "io")
-NEEDS_FIXTURE = ("load", "trees", "hist", "auto", "cross")
+            "hist", "auto", "cross", "io",
+            # the same with progress=True: the progress indicator wraps the result generators on the root rank
+            "create-ids+p", "trees+p", "hist+p", "cross+p")
+NEEDS_FIXTURE = ("load", "trees", "hist", "auto", "cross", "trees+p", "hist+p", "cross+p")
 
 
 def h(*parts):
@@ -136,6 +138,13 @@ def program(name, d, max_workers=None):
     fix = os.path.join(d, "fixture")
     out = os.path.join(d, "out")
     mw = dict(max_workers=max_workers)
+    prog = {}
+    if name.endswith("+p"):
+        from yaw.utils.logging import Indicator
+
+        Indicator.__init__.__kwdefaults__["stream"] = open(os.devnull, "w")
+        name, prog = name[:-2], dict(progress=True)
+        mw = dict(mw, **prog)
     if name == "create-centres":
         cat = Catalog.from_dataframe(out + "/R", R, ra_name="ra", dec_name="dec", redshift_name="z", weight_name="w",
                                      patch_centers=centres(), chunksize=3, **mw)
@@ -190,13 +199,13 @@ def program(name, d, max_workers=None):
         return h(obs_trees(cR), obs_trees(cU)) if parallel.on_root() else None
     conf = config(max_workers)
     if name == "hist":
-        hd = yaw.HistData.from_catalog(cR, conf)
+        hd = yaw.HistData.from_catalog(cR, conf, **prog)
         return h(hd.data, hd.samples)
     if name == "auto":
         cfs = yaw.autocorrelate(conf, cR, cRR, count_rr=True)
         return obs_cf(cfs) if parallel.on_root() else None
     if name == "cross":
-        cfs = yaw.crosscorrelate(conf, cR, cU, ref_rand=cRR)
+        cfs = yaw.crosscorrelate(conf, cR, cU, ref_rand=cRR, **prog)
         return obs_cf(cfs) if parallel.on_root() else None
     if name == "io":
         from vlib import containers as C
